@@ -243,6 +243,8 @@ CHECKS["C06"] = {
         H("opentype/gtab", _S, "VerifH_C06_pair", ["applied"], quick={"params": {"maxlen": 2}, "timeout": 280}, thorough={"params": {"maxlen": 3}, "timeout": 2400}),
         H("opentype/gtab", _S, "VerifH_C06_pairclass", ["applied"], quick={"params": {"maxlen": 2}, "timeout": 280}, thorough={"params": {"maxlen": 3}, "timeout": 2400}),
         H("opentype/gtab", _S, "VerifH_C06_context", ["applied"], quick={"params": {"maxlen": 2}, "timeout": 280}, thorough={"params": {"maxlen": 3}, "timeout": 2400}),
+        H("opentype/gtab", _S7, "VerifH_C07_scratch", ["applied"], quick={"timeout": 280, "shards": 6}),
+        H("opentype/gtab", _S, "VerifH_C06_chained", ["applied"], quick={"params": {"maxlen": 2}, "timeout": 280, "shards": 4}, thorough={"params": {"maxlen": 3}, "timeout": 2400, "shards": 4}),
     ],
     "bounds": {"quick": "lookup lists of concrete shape (GSUB 1.1, 1.2, 2.1 (+ a second lookup in 3 orders), 3.1, 4.1 with two competing ligatures, GPOS 1.1, 2.1 and 2.2 (class pairs, class values up to and beyond the matrix size) with/without second record, sequence context 5.1 with nested single substitutions) with symbolic replacement ids / value records / nested action indices; lookup flags symbolic over ignore-base/ligature/marks, mark filtering set and mark attachment type 0..2; GDEF class, mark attachment class and mark-set membership of one alphabet glyph symbolic; glyph sequences of length 1..3 [2..3 for ligature/pair/context] with symbolic ids over a 4-glyph alphabet",
                "thorough": "sequences up to length 4-5"},
@@ -257,6 +259,7 @@ CHECKS["C07"] = {
         H("opentype/gtab", _S7, "VerifH_C07_flags", ["applied"], quick={"timeout": 280}),
         H("opentype/gtab", _S7, "VerifH_C07_history", ["applied"], quick={"timeout": 280, "shards": 4}),
         H("opentype/gtab", _S7, "VerifH_C07_term", ["terminated"], quick={"timeout": 280}),
+        H("opentype/gtab", _S7, "VerifH_C07_scratch", ["applied"], quick={"timeout": 280, "shards": 6}),
         H("opentype/gtab", _S7, "VerifH_C06_ligature", ["applied"], quick={"params": {"maxlen": 2}, "timeout": 280}),
         H("opentype/gtab", _S7, "VerifH_C06_multiple", ["applied"], quick={"params": {"maxlen": 2}, "timeout": 280}),
         H("opentype/gtab", _S7, "VerifH_C06_pairclass", ["applied"], quick={"params": {"maxlen": 2}, "timeout": 280}),
@@ -284,11 +287,13 @@ CHECKS["C10"] = {
 CHECKS["C20"] = {
     "harnesses": [
         H(".", ["c20.go", "common.go"], "VerifH_C20_names", ["named"], quick={"params": {"maxnamelen": 1}, "timeout": 280, "shards": 3}, thorough={"params": {"maxnamelen": 1, "fullsym": 1}, "timeout": 2400, "shards": 3}),
+        H(".", ["c20.go", "common.go"], "VerifH_C20_ligs", ["named"], quick={"params": {"maxnamelen": 1}, "timeout": 280}),
+        H("cff", "c20.go", "VerifH_C20_makesimple", ["named"], quick={"params": {"maxglyphs": 4}, "timeout": 280, "shards": 5}, thorough={"params": {"maxglyphs": 5}, "timeout": 2400, "shards": 5}),
         H(".", ["c20.go", "common.go"], "VerifH_C20_cff", ["named"], quick={"params": {"maxnamelen": 1}, "timeout": 280}, thorough={"params": {"maxnamelen": 2}, "timeout": 2400}),
     ],
     "bounds": {"quick": "TrueType font with 4 glyphs whose names are absent, a too-short list, or 4 symbolic strings of length 0..1 [2 in thorough] over {A,B,.} (missing, duplicate and colliding names are solver-chosen); format 12 cmap for 'A' and 'B' with one [thorough: two] symbolic target glyph(s); none or one GSUB 1.2 / 3.1 / 4.1 subtable with one [two] symbolic in-range glyph id(s); nondeterministic map iteration order; MakeGlyphNames twice, EnsureGlyphNames, GlyphName; a 3-glyph simple CFF font with symbolic names",
                "thorough": "same"},
-    "outside": ["PostScriptName (regexp over a symbolic string)", "cff MakeSimple / CID-keyed fonts", "more than 4 glyphs, names longer than 2 bytes"],
+    "outside": ["PostScriptName (regexp over a symbolic string)", "CID-keyed fonts", "more than 5 glyphs, symbolic names longer than 2 bytes (cff MakeSimple: names from a list of 8 candidates)"],
     "assumptions": ["GSUB rules refer to existing glyphs (as the property's quantifier states)"],
 }
 
